@@ -201,7 +201,7 @@ def random_series(seed, big=False):
         ids.append({v: vm[info["newid"][v]] for v in present})
     # partial user guesses (true pairings; now and then a wrong one)
     guess = {f: {} for f in range(nf)}
-    gmode = rng.choice(["none", "none", "true", "true", "wrong"])
+    gmode = rng.choice(["none", "none", "true", "true", "wrong", "true", "wrong", "none", "true", "sparse"])
     if gmode != "none":
         for f in range(nf - 1):
             d0, d1 = degrees(frames_cells[f]), degrees(frames_cells[f + 1])
@@ -214,6 +214,8 @@ def random_series(seed, big=False):
                 a, b = rng.sample(both, 2)
                 if ids[f + 1][b] not in guess[f].values():
                     guess[f][ids[f][a]] = ids[f + 1][b]
+    if gmode == "sparse":   # pairings for some steps only: the dict has no entry for the other frames
+        guess = {f: g for f, g in guess.items() if g}
     return {"kind": "random", "src": f"{name}:k{k}:{'+'.join(kinds)}:{gmode}:cm{int(cm)}:vanish{vanish_at}",
             "nf": nf, "np": max(used), "descs": descs, "ids": ids, "times": times, "cm": cm, "guess": guess,
             "exact": None}
@@ -314,6 +316,7 @@ def observe(case, ser, with_vel=False, rhs_seed=0):
            "present": [[(p in ids[f]) for p in range(1, NP + 1)] for f in range(nf)],
            "ids": [[ids[f].get(p, -1) for p in range(1, NP + 1)] for f in range(nf)],
            "times": [_fx(t) for t in ser["times"]], "cm": bool(ser["cm"]),
+           "guess_missing": bool(ser["guess"]) and any(f not in ser["guess"] for f in range(nf - 1)),
            "guess": [[[inv[f].get(int(a), -1), inv[f + 1].get(int(b), -1)] for a, b in ser["guess"].get(f, {}).items()]
                      for f in range(nf - 1)]}
     evs.append(env)
@@ -322,7 +325,7 @@ def observe(case, ser, with_vel=False, rhs_seed=0):
         V, E, C = build.build_mesh(ser["descs"][f])
         frames[f] = fs.frames.Frame(f, V, E, C, time=ser["times"][f])
         del V, E, C
-    guess = {f: {int(a): int(b) for a, b in ser["guess"].get(f, {}).items()} for f in range(nf)}
+    guess = {int(f): {int(a): int(b) for a, b in g.items()} for f, g in ser["guess"].items()}
     raised = ""
     sess = None
     try:
@@ -442,35 +445,47 @@ def observe(case, ser, with_vel=False, rhs_seed=0):
                  "built_raised": built, "raised": "", "rowof": [], "rows_outside": 0, "nrows": 0, "b": [], "avg": 0,
                  "oor": False}
             if not built:
+                rowof = [-1] * NP
+                for v, r in fm.map_vid_to_row.items():
+                    if int(v) in inv[f]:
+                        rowof[inv[f][int(v)] - 1] = int(r)
+                    else:
+                        e["rows_outside"] += 1
+                e["rowof"] = rowof
                 try:
                     kw = {"adimensional_velocity": ad, "velocity_normalization": nrm}
                     if bm:
                         kw["b_matrix"] = bm
                     b, avg = fm.set_velocity_matrix(mesh, **kw)
-                    rowof = [-1] * NP
-                    for v, r in fm.map_vid_to_row.items():
-                        if int(v) in inv[f]:
-                            rowof[inv[f][int(v)] - 1] = int(r)
-                        else:
-                            e["rows_outside"] += 1
-                    e["rowof"] = rowof
                     e["nrows"] = int(b.shape[0])
                     e["b"] = [_fx(x) for x in np.asarray(b, float).flatten()]
                     e["avg"] = _fx(avg)
                 except OverflowError:
                     e["oor"] = True
-                    e["b"], e["rowof"] = [], []
+                    e["b"] = []
                 except Exception as exc:
                     e["raised"] = type(exc).__name__
             evs.append(e)
-    e = {"case": case, "ev": "SysVel", "raised": "", "vals": [], "used": [], "oor": False}
+    e = {"case": case, "ev": "SysVel", "raised": "", "built_raised": "", "vals": [], "used": [], "oor": False}
+
+    def used_sets():
+        return [[inv[f].get(int(v), -1) for v in sess.force_matrices[f].map_vid_to_row.keys()] for f in range(nf)]
     try:
         vals = sess.get_system_velocity_per_frame()
         e["vals"] = [_fx(x) for x in vals]
-        e["used"] = [[inv[f].get(int(v), -1) for v in sess.force_matrices[f].map_vid_to_row.keys()] for f in range(nf)]
+        e["used"] = used_sets()
     except OverflowError:
         e["oor"], e["vals"], e["used"] = True, [], []
     except Exception as exc:
         e["raised"] = type(exc).__name__
+        # was it the construction of a force matrix (not this property's business) or the velocities?
+        for f in range(nf):
+            try:
+                sess.build_force_matrix(when=f, angle_limit=np.inf)
+            except Exception as exc2:
+                e["built_raised"] = type(exc2).__name__
+                break
+        if not e["built_raised"]:
+            e["used"] = used_sets()
     evs.append(e)
     return evs
